@@ -75,7 +75,8 @@ func TestVerif_C01C10_KeywordChoices(t *testing.T) {
 	res := &xResult{Check: "keyword choices", Property: "C01 C10", Exhaustive: true,
 		Bound: "4 tag-built grammars (choice of untyped literals; typed literal and token reference mixed in; multi-token alternatives with a common prefix; non-ASCII literals whose case variants differ in length) x CaseInsensitive off / Ident / Ident+String (given after and before the Lexer option) x all inputs of <= 3 words over 12 words in several letter cases, lookahead 1 and 3",
 		Rule: "distinct (grammar, option, input) triples; non-trivial = some word of the input differs from a literal only by case"}
-	lex := lexer.MustSimple([]lexer.SimpleRule{{Name: "Ident", Pattern: `[\pL]+`}, {Name: "Int", Pattern: `\d+`}, {Name: "String", Pattern: `'[^']*'`}, {Name: "Whitespace", Pattern: `\s+`}})
+	// (the token types are numbered unlike those of the default lexer, so that a name resolved against the wrong lexer shows)
+	lex := lexer.MustSimple([]lexer.SimpleRule{{Name: "Int", Pattern: `\d+`}, {Name: "String", Pattern: `'[^']*'`}, {Name: "Whitespace", Pattern: `\s+`}, {Name: "Ident", Pattern: `[\pL]+`}})
 	names := map[lexer.TokenType]string{}
 	for n, ty := range lex.Symbols() {
 		names[ty] = n
